@@ -26,9 +26,10 @@ open PySMT PySMT.Build PySMT.Simp
   simp [Term.str, fv_node]
 
 /-- a string constant as result -/
-theorem Res.str {t : Term} (v : String) (h : ∀ I : Interp, I.WF → div0 I t = false → eval I t = .s v) :
+theorem Res.str {t : Term} (v : String) (h : ∀ I : Interp, I.WF → Hyp I t → eval I t = .s v) :
     Res t .str (Term.str v) :=
-  ⟨typeOf_strc v, wf_strc v, fun I hI hd => ⟨by rw [eval_strc, h I hI hd], div0_strc I v⟩, by simp⟩
+  Res.of_hyp (typeOf_strc v) (wf_strc v) (fun I hI hh => by rw [eval_strc, h I hI hh])
+    (fun I _ _ => div0_strc I v) (by simp)
 
 theorem isStrConst_some {t : Term} {v : String} (h : isStrConst t = some v) : t = Term.str v := by
   unfold isStrConst at h
